@@ -15,6 +15,7 @@ import DateutilVerif.Base.Wire
 import DateutilVerif.Model.Parser
 import DateutilVerif.Spec.ParserTemplates
 import DateutilVerif.Spec.ParserTemplatesGen
+import DateutilVerif.Spec.ParserSentence
 
 namespace Ops.Parser
 open Wire PM
@@ -263,6 +264,22 @@ def handle (op : String) (args : List String) : Option String :=
           | some cs => "ok " ++ showCps cs
           | none => "err unknown-template")
       | _, _ => "bad-args")
+  | "parser.sentences", [] =>
+    -- ids of the templates that have a C15 sentence theorem (C15.sentence_templates_have_theorems)
+    some ("ok " ++ ",".intercalate PT.sentenceTemplates)
+  | "parser.filler", [ws] =>
+    -- the DECIDABLE class of filler words of the sentence theorems, word by word (`;`-separated code-point words)
+    some (match (ws.splitOn ";").mapM parseCps? with
+      | some l => "ok " ++ String.ofList (l.map (fun w => if PM.fillerWord w then '1' else '0'))
+      | none => "bad-args")
+  | "parser.sentence", [id, dt, lead, trail] =>
+    -- the Lean text of a sentence: filler words (each followed by a space), the rendering, filler words (each after a space)
+    some (match (parseIntList? dt).bind DT.ofList?, (if lead == "-" then some [] else (lead.splitOn ";").mapM parseCps?),
+                (if trail == "-" then some [] else (trail.splitOn ";").mapM parseCps?) with
+      | some t, some l, some r => (match PT.sentenceCore id t (PM.fillerChars r) with
+          | some cs => "ok " ++ showCps (PM.leadChars l ++ cs)
+          | none => "err unknown-template")
+      | _, _, _ => "bad-args")
   | "parser.asciicls", [] =>
     some ("ok " ++ String.ofList ((List.range 128).map (fun i => match asciiCls (Char.ofNat i) with
       | .alpha => 'a' | .decDigit v => Char.ofNat (48 + v) | .otherDigit => 'n' | .space => 's' | .other => 'x')))
